@@ -142,6 +142,8 @@ type c09Event struct {
 	Adv  string            `json:"adv,omitempty"` // adversarial class ("" = legitimate)
 	S    uint32            `json:"s,omitempty"`   // selector inside the adversarial class / among legitimate signers
 	Head bool              `json:"head,omitempty"`
+	Rep  uint8             `json:"rep,omitempty"`  // re-deliveries through the REPROCESS route right after the offer (0..2)
+	Skew uint8             `json:"skew,omitempty"` // 0: next time slot; else signing time relative to the predecessor's (c09Skews)
 	NoTP bool              `json:"notp,omitempty"` // no prev names a version of the target DID (forces the "latest version" fallback)
 	Rot  uint8             `json:"rot,omitempty"`  // rotation of the prevs list
 	Mut  *jsonmut.Mutation `json:"mut,omitempty"`
@@ -234,7 +236,12 @@ var c09DocClasses = []string{"vm-no-fragment", "vm-foreign-prefix", "vm-dup-id",
 	"core-no-context", "core-vm-no-type", "core-vm-no-controller", "core-svc-no-type", "core-svc-no-endpoint"}
 
 var c09Ops = []string{"create", "create", "create", "addkey", "addkey", "addkey", "rmkey", "rotate", "rotate", "rotate", "rotate",
-	"demote", "demote", "demote", "promote", "ctrl", "ctrl", "ctrl", "ctrl", "ctrl", "svc", "svc", "deact", "deact", "fork", "fork"}
+	"demote", "demote", "demote", "promote", "ctrl", "ctrl", "ctrl", "ctrl", "ctrl", "svc", "svc", "deact", "deact", "fork", "fork", "reprocess", "reprocess"}
+
+// c09Skews: signing time of an update relative to the signing time of the version it succeeds (seconds). Causal order is
+// given by prevs / Lamport clock, not by signing time: a publisher's clock may lag or run ahead.
+var c09Skews = []int{-3600, -30, -1, 0, 1, 30}
+var c09SkewNames = []string{"earlier-1h", "earlier-30s", "earlier-1s", "equal", "later-1s", "later-30s"}
 
 func c09GenEvent(t *rapid.T) c09Event {
 	ev := c09Event{
@@ -246,6 +253,8 @@ func c09GenEvent(t *rapid.T) c09Event {
 		S:    rapid.Uint32Range(0, 63).Draw(t, "s"),
 		Head: rapid.Bool().Draw(t, "head"),
 		NoTP: rapid.IntRange(0, 5).Draw(t, "notp") == 0,
+		Rep:  []uint8{0, 0, 0, 1, 1, 2}[rapid.IntRange(0, 5).Draw(t, "rep")],
+		Skew: []uint8{0, 0, 0, 0, 0, 0, 1, 2, 3, 4, 5, 6}[rapid.IntRange(0, 11).Draw(t, "skew")],
 		Rot:  uint8(rapid.IntRange(0, 3).Draw(t, "rot")),
 	}
 	switch g := rapid.IntRange(0, 19).Draw(t, "advgroup"); {
@@ -389,6 +398,9 @@ type c09World struct {
 	stop    bool
 	// raw content of the database file after the previous offer (bucket/key -> value) and the copy it was read from
 	twistKind string
+	maxAt     time.Time       // latest signing time of any accepted version
+	rep       int             // re-deliveries after each offer of the current event
+	log       []*c09Delivered // what was delivered so far (for later re-delivery)
 	snap      map[string]string
 	snapPath  string
 	nsnap     int
@@ -1375,6 +1387,11 @@ type c09Offer struct {
 	mustAccept bool
 	class      string
 	keys       []int
+	atSet      bool // o.at is the signing time to use (skewed relative to the predecessor)
+	byTime     bool // the refusal rests on a controller look-up by signing time: only demanded when that time is not in the past
+	tx         dag.Transaction
+	admitted   bool // passed the DAG signature verifier (the transaction is on the DAG)
+	accepted   bool
 	noTP       bool // no prev names a version of the target: when accepted the store forks, the record cannot follow
 	tick       int  // when > 0: the (already reserved) signing time slot, instead of the next one
 	noRecord   bool // the caller keeps the record itself (fork branches)
@@ -1401,15 +1418,136 @@ func c09Short(s string) string {
 	return s
 }
 
+// c09Delivered is one (transaction, payload) pair that was handed to the VDR.
+type c09Delivered struct {
+	tx         dag.Transaction
+	payload    []byte
+	label      string
+	class      string
+	mustReject string
+	accepted   bool
+	later      bool // may be re-delivered later in the history (its verdict does not depend on the state of the store)
+	pend       c09Pending
+}
+
+// offer delivers the pair through the network subscriber route and then, when the transaction is on the DAG, re-delivers it
+// w.rep times through the REPROCESS route (what an operator's reprocess does with every transaction of the type).
 func (w *c09World) offer(o *c09Offer) bool {
-	x := w.x
-	tick := o.tick
-	if tick == 0 {
-		w.tick++
-		tick = w.tick
+	accepted := w.offerOnce(o)
+	if !o.admitted || w.stop || (o.accepted && o.mustReject != "") {
+		return accepted
 	}
-	at := time.Unix(1609459200, 0).Add(time.Duration(tick) * 10 * time.Second).UTC()
+	if !o.accepted && o.mustReject == "" {
+		return accepted // no verdict demanded: nothing to hold a re-delivery against
+	}
+	e := &c09Delivered{tx: o.tx, payload: o.payload, label: o.label, class: o.class, mustReject: o.mustReject, accepted: o.accepted,
+		pend: c09Pending{target: o.target, ref: o.ref, ph: o.ph, at: o.at, keys: o.keys}}
+	e.later = o.accepted || strings.HasPrefix(o.mustReject, "accepted-invalid-doc:") || strings.Contains(o.mustReject, ":create-")
+	w.log = append(w.log, e)
+	for r := 1; r <= w.rep && !w.stop; r++ {
+		w.redeliver(e, r, "at-once")
+	}
+	return accepted
+}
+
+// redeliver hands a pair that was delivered before to handleReprocessEvent, with a message bound to a JetStream
+// subscription. The verdict of the reference model does not depend on the route: what was refused stays refused (nothing
+// changes), and a second delivery of what was accepted changes nothing either.
+func (w *c09World) redeliver(e *c09Delivered, n int, when string) {
+	x := w.x
+	verdict := "accepted"
+	if !e.accepted {
+		verdict = "refused-" + strings.SplitN(strings.TrimPrefix(e.mustReject, "accepted-"), ":", 2)[0]
+	}
+	x.Classf("route:reprocess:%s:%s:delivery-%d", when, verdict, n)
+	msg := verifReprocessMsg(x, e.tx, e.payload)
+	w.net.discovered = 0
+	_, panicked := c09SafeErr(func() error { w.amb.handleReprocessEvent(msg); return nil })
+	if panicked {
+		x.Class("panic-while-processing")
+	}
+	prevSnap, prevPath := w.snap, w.snapPath
+	w.takeSnapshot()
+	var changed []string
+	for k, v := range w.snap {
+		if pv, ok := prevSnap[k]; !ok || pv != v {
+			changed = append(changed, k)
+		}
+	}
+	for k := range prevSnap {
+		if _, ok := w.snap[k]; !ok {
+			changed = append(changed, k)
+		}
+	}
+	sort.Strings(changed)
+	x.Logf("%s re-delivered through REPROCESS (%s, delivery %d): %d database entries changed", e.label, when, n, len(changed))
+	if len(changed) > 0 {
+		sig := "redelivery-changed-state:"
+		if !e.accepted {
+			sig = "reprocess-made-effective:" + verdict + ":"
+		}
+		o := &c09Offer{label: e.label + " [REPROCESS " + when + "]", class: e.class}
+		if !w.compareFull(prevPath, e.pend, o, sig, func(c09Query) bool { return true }, fmt.Sprintf("delivery %d through the REPROCESS route, database entries %v changed", n, changed)) {
+			w.stop = true // the record cannot follow
+		}
+	}
+	if !e.accepted && w.net.discovered > 0 {
+		x.Violate("rejected-side-effect", "%s (%s) was refused but its re-delivery through REPROCESS called DiscoverServices", e.label, e.class)
+	}
+	if prevPath != "" {
+		_ = os.Remove(prevPath)
+	}
+}
+
+// compareFull asks everything the record knows of the snapshot taken before and of the live store; true = same answers.
+func (w *c09World) compareFull(prevPath string, pend c09Pending, o *c09Offer, sigPrefix string, only func(q c09Query) bool, why string) bool {
+	x := w.x
+	kv, err := bbolt.CreateBBoltStore(prevPath, stoabs.WithNoSync(), stoabs.WithLockAcquireTimeout(time.Hour))
+	x.NoErr(err, "open snapshot")
+	defer kv.Close(audit.TestContext())
+	old := didstore.New(&storage.StaticKVStoreProvider{Store: kv})
+	x.NoErr(old.(core.Configurable).Configure(core.ServerConfig{}), "configure snapshot store")
+	qb, qa := w.queries(c09NewView(old), pend, true), w.queries(w.c09View, pend, true)
+	rb, ra := c09Eval(qb), c09Eval(qa)
+	for i := range qb {
+		if only(qb[i]) && rb[i] != ra[i] {
+			x.Violate(sigPrefix+qb[i].label, "%s (%s): %s: %s changed\n before: %s\n after:  %s", o.label, o.class, why, qb[i].what, c09Short(rb[i]), c09Short(ra[i]))
+			return false
+		}
+	}
+	x.Class("store-bytes-changed-answers-same")
+	return true
+}
+
+func (w *c09World) offerOnce(o *c09Offer) bool {
+	x := w.x
+	base := time.Unix(1609459200, 0).UTC()
+	var at time.Time
+	if o.atSet {
+		at = o.at
+		if at.Before(base) {
+			at = base
+		}
+	} else {
+		tick := o.tick
+		if tick == 0 {
+			w.tick++
+			tick = w.tick
+		}
+		at = base.Add(time.Duration(tick) * 10 * time.Second)
+	}
+	if need := int(at.Sub(base)/(10*time.Second)) + 1; need > w.tick && o.tick == 0 {
+		w.tick = need // ordinary time slots stay ahead of every signing time used so far
+	}
+	if o.byTime && o.mustReject != "" && at.Before(w.maxAt) {
+		// The refusal would rest on looking up a controller as of the signing time, and that time lies before a version
+		// already stored: the transaction may honestly predate that version (concurrent view). Nothing is demanded.
+		o.mustReject = ""
+		o.class += "/backdated-no-verdict"
+		x.Class("offer:" + o.class)
+	}
 	tx, clock := w.sign(o.payload, o.prevs, at, o.signKey, o.kid, o.embed)
+	o.tx = tx
 	ph := hash.SHA256Sum(o.payload)
 	o.ref, o.clock, o.ph, o.at = tx.Ref(), clock, ph, at
 	pend := c09Pending{target: o.target, ref: tx.Ref(), ph: ph, at: at, keys: o.keys}
@@ -1421,9 +1559,13 @@ func (w *c09World) offer(o *c09Offer) bool {
 	var cerr error
 	var cpanic bool
 	if verr == nil {
-		cerr, cpanic = c09SafeErr(func() error { return w.amb.callback(tx, o.payload) })
+		cerr, cpanic = c09SafeErr(func() error {
+			_, err := w.amb.handleNetworkEvent(dag.Event{Type: dag.PayloadEventType, Hash: tx.Ref(), Transaction: tx, Payload: o.payload})
+			return err
+		})
 	}
 	accepted := verr == nil && cerr == nil
+	o.admitted, o.accepted = verr == nil, accepted
 	if vpanic || cpanic {
 		// a crash while processing is C19's business; here it counts as a refusal (and the state must be unchanged)
 		x.Class("panic-while-processing")
@@ -1463,23 +1605,6 @@ func (w *c09World) offer(o *c09Offer) bool {
 		}
 	}
 	sort.Strings(changed)
-	// compareFull asks everything of the snapshot taken before the offer and of the live store
-	compareFull := func(sigPrefix string, only func(q c09Query) bool, why string) {
-		kv, err := bbolt.CreateBBoltStore(prevPath, stoabs.WithNoSync(), stoabs.WithLockAcquireTimeout(time.Hour))
-		x.NoErr(err, "open snapshot")
-		defer kv.Close(audit.TestContext())
-		old := didstore.New(&storage.StaticKVStoreProvider{Store: kv})
-		x.NoErr(old.(core.Configurable).Configure(core.ServerConfig{}), "configure snapshot store")
-		qb, qa := w.queries(c09NewView(old), pend, true), w.queries(w.c09View, pend, true)
-		rb, ra := c09Eval(qb), c09Eval(qa)
-		for i := range qb {
-			if only(qb[i]) && rb[i] != ra[i] {
-				x.Violate(sigPrefix+qb[i].label, "%s (%s): %s: %s changed\n before: %s\n after:  %s", o.label, o.class, why, qb[i].what, c09Short(rb[i]), c09Short(ra[i]))
-				return
-			}
-		}
-		x.Class("store-bytes-changed-answers-same")
-	}
 	if !accepted {
 		after := c09Eval(qs)
 		direct := false
@@ -1493,7 +1618,7 @@ func (w *c09World) offer(o *c09Offer) bool {
 		}
 		if len(changed) > 0 && !direct {
 			x.Class("rejected-but-store-bytes-changed")
-			compareFull("rejected-state-changed:", func(c09Query) bool { return true }, fmt.Sprintf("rejected (verify=%v, callback=%v), database entries %v changed", verr, cerr, changed))
+			w.compareFull(prevPath, pend, o, "rejected-state-changed:", func(c09Query) bool { return true }, fmt.Sprintf("rejected (verify=%v, callback=%v), database entries %v changed", verr, cerr, changed))
 		}
 		if w.net.discovered > 0 {
 			x.Violate("rejected-side-effect", "%s (%s) was rejected but DiscoverServices was called", o.label, o.class)
@@ -1517,7 +1642,7 @@ func (w *c09World) offer(o *c09Offer) bool {
 			}
 		}
 		if foreign {
-			compareFull("other-did-changed:", func(q c09Query) bool { return q.raw && q.did != o.target }, fmt.Sprintf("accepted for %s, database entries %v changed", o.target, changed))
+			w.compareFull(prevPath, pend, o, "other-did-changed:", func(q c09Query) bool { return q.raw && q.did != o.target }, fmt.Sprintf("accepted for %s, database entries %v changed", o.target, changed))
 		}
 	}
 	if prevPath != "" {
@@ -1532,6 +1657,9 @@ func (w *c09World) offer(o *c09Offer) bool {
 	}
 	if !accepted {
 		return false
+	}
+	if at.After(w.maxAt) {
+		w.maxAt = at
 	}
 	if o.noRecord {
 		return true
@@ -1993,6 +2121,7 @@ func (w *c09World) update(i int, ev c09Event) {
 	}
 
 	legit, odd, unauth := w.signers(d)
+	freshKey := false
 	x.Classf("controllers:%d", len(w.controllers(d)))
 	o := &c09Offer{label: fmt.Sprintf("event %d %s", i, op), op: op, di: d.idx, target: d.id, newKey: -1, spec: spec, specExact: true, embed: -1}
 	for _, u := range spec.Keys {
@@ -2190,6 +2319,13 @@ func (w *c09World) update(i int, ev c09Event) {
 		}
 		o.class = class
 		o.mustReject = "accepted-unauthorised:" + class
+		switch class {
+		case "never-listed", "never-listed+proxy", "kid-lie", "proposed-only", "update-unknown-did":
+			freshKey = true // the key never appeared in any document: no look-up, as of whatever time, can authorise it
+		}
+		// does the refusal rest on the node looking up controllers as of the signing time? Not when the kid names an active
+		// controller of the target whose latest version is among the prevs (then that version decides).
+		o.byTime = !freshKey && !(s.holder >= 0 && c09In(w.controllers(d), s.holder) && !s.proxy)
 		x.NonTrivial()
 	}
 	_ = odd
@@ -2224,6 +2360,7 @@ func (w *c09World) update(i int, ev c09Event) {
 		}
 		if len(kept) > 0 {
 			o.prevs, o.noTP, o.mustAccept = kept, true, false
+			o.byTime = o.byTime || !freshKey
 			o.class += "/no-target-prev"
 			if strings.HasPrefix(o.mustReject, "accepted-unauthorised:") {
 				o.mustReject += "/no-target-prev" // the fallback route is a mechanism of its own
@@ -2232,6 +2369,15 @@ func (w *c09World) update(i int, ev c09Event) {
 	}
 	if o.payload == nil {
 		o.payload = w.encode(doc)
+	}
+	if ev.Skew > 0 && o.di == d.idx {
+		// the signing time is the publisher's business: relative to the version this update succeeds it may be anything
+		k := int(ev.Skew-1) % len(c09Skews)
+		o.at, o.atSet = d.latest().at.Add(time.Duration(c09Skews[k])*time.Second), true
+		x.Class("signing-time:" + c09SkewNames[k] + "-than-predecessor")
+		if o.mustAccept {
+			x.Class("signing-time:" + c09SkewNames[k] + "-than-predecessor:legitimate")
+		}
 	}
 	x.Class("offer:" + o.class)
 	if len(cur.Ctrl) > 0 {
@@ -2515,7 +2661,23 @@ func c09Run(x *h.Ctx, c c09Case) {
 		if w.stop {
 			break
 		}
+		w.rep = int(ev.Rep)
 		switch {
+		case ev.Op == "reprocess" && len(w.log) > 0:
+			// an operator's reprocess, later in the history: earlier pairs come by again
+			var later []*c09Delivered
+			for _, e := range w.log {
+				if e.later {
+					later = append(later, e)
+				}
+			}
+			if len(later) == 0 {
+				break
+			}
+			for n := 1; n <= 1+int(ev.A)%2 && !w.stop; n++ {
+				e := later[(int(ev.D)+n*int(ev.B|1))%len(later)]
+				w.redeliver(e, n, "later")
+			}
 		case len(w.dids) == 0:
 			if ev.S%4 != 0 {
 				ev.Adv = "" // get a history going first
@@ -2532,6 +2694,9 @@ func c09Run(x *h.Ctx, c c09Case) {
 			}
 		case ev.Op == "fork":
 			w.fork(i, ev)
+		case ev.Op == "reprocess":
+			ev.Op = "svc"
+			w.update(i, ev)
 		default:
 			w.update(i, ev)
 		}
